@@ -921,3 +921,84 @@ func init() {
 		WallBudget:  shapeBudget,
 	})
 }
+
+func init() {
+	registerProp(&PropSpec{
+		ID: "C14",
+		Units: func(tier string, seed int64, sh *Shared) []Unit {
+			var units []Unit
+			sep := "\x1f"
+			exprs := []struct {
+				toks  []string
+				infix bool
+			}{
+				{[]string{"(", "and", "(", ">", "a", "1", ")", "b", "(", "=", "s", "\"x (y;z\"", ")", ")"}, false},
+				{[]string{"(", "if", "b", "(", "+", "a", "K", ")", "(", "in", "a", "(", "1", "2", ")", ")", ")"}, false},
+				{[]string{"(", "overlap", "(", "\"a b\"", "\"c\"", ")", "(", ")", ")"}, false},
+				{[]string{"a", "+", "K", "*", "(", "a", "-", "1", ")", "==", "if", "(", "b", ",", "1", ",", "2", ")"}, true},
+				{[]string{"in", "(", "a", ",", "[", "1", "2", "3", "]", ")", "&&", "!", "b"}, true},
+				{[]string{"(", "+", "1"}, false},
+				{[]string{"(", "nosuch", "a", ")"}, false},
+			}
+			delim := func(t string) bool { return t == "(" || t == ")" || t == "[" || t == "]" || t == "," }
+			for ei, ex := range exprs {
+				joined := strings.Join(ex.toks, sep)
+				nt := "prefix"
+				if ex.infix {
+					nt = "infix"
+				}
+				for g := 0; g+1 < len(ex.toks); g++ {
+					if tier != "thorough" && ei > 2 && g%2 == 1 {
+						continue
+					}
+					units = append(units, Unit{"VerifC14Layout", []string{joined, itoa2(g), "space1", nt}})
+					if g%3 == 0 || tier == "thorough" {
+						units = append(units, Unit{"VerifC14Layout", []string{joined, itoa2(g), "space2", nt}})
+						units = append(units, Unit{"VerifC14Layout", []string{joined, itoa2(g), "comment", nt}})
+					}
+					units = append(units, Unit{"VerifC14Layout", []string{joined, itoa2(g), "directive", nt}})
+					// no whitespace at all is a re-layout of the same tokens only next to a delimiter,
+					// and not in front of a string literal (a quote starts a literal only at a token start)
+					if (delim(ex.toks[g]) || delim(ex.toks[g+1])) && !strings.HasPrefix(ex.toks[g+1], "\"") {
+						units = append(units, Unit{"VerifC14Layout", []string{joined, itoa2(g), "none", nt}})
+					}
+				}
+				units = append(units, Unit{"VerifC14Layout", []string{joined, "0", "lead", nt}}, Unit{"VerifC14Layout", []string{joined, "0", "trail", nt}})
+			}
+			// formatter
+			maxL := 3
+			if tier == "thorough" {
+				maxL = 4
+			}
+			for l := 0; l <= maxL; l++ {
+				units = append(units, Unit{"VerifC14Format", []string{itoa2(l), "", ""}})
+			}
+			for _, c := range [][2]string{{"(= s \"a", "\")"}, {"(= s \"", "\")"}, {"(and a ;c", "\n b)"}, {"a", "b"}, {"(in a (1 ", "))"}, {"(a", ")"}, {"\"x\"", "\"y\""}, {"a,", " b"}, {"[1 ", "]"}, {";;;; optimize:false\n", "(+ 1 1)"}, {"(and\n  a\n  ", "\n  b)"}} {
+				for l := 1; l <= 2; l++ {
+					units = append(units, Unit{"VerifC14Format", []string{itoa2(l), c[0], c[1]}})
+				}
+			}
+			for _, e := range [][2]string{
+				{"(and (> a 1) b (= s \"x (y;z\"))", "prefix"}, {"(= s \"a  b\")", "prefix"}, {"(= s \"a(b\")", "prefix"}, {"(= s \"a;b\")", "prefix"}, {"(= s \"a\tb\")", "prefix"},
+				{"(if b ;; comment (with parens)\n (+ a K) ;; another\n (in a (1 2)))", "prefix"}, {";;;; optimize: false\n(and b (> a 1))", "prefix"}, {"(overlap (\"a b\" \"c)\") ())", "prefix"},
+				{"a + K * (a - 1) == if(b, 1, 2)", "infix"}, {"in(s, [\"a b\" \"c]\"]) && !b", "infix"}, {"(+ 1", "prefix"}, {"(and a\n\n\n   b)   ", "prefix"}, {"  (  +  1  1  )  ", "prefix"},
+			} {
+				units = append(units, Unit{"VerifC14FormatExpr", []string{e[0], e[1]}})
+			}
+			return units
+		},
+		Reach: []string{"layout", "layout-compiles", "formatted", "lexes", "format-expr"},
+		Bounds: func(tier string) map[string]interface{} {
+			l := 3
+			if tier == "thorough" {
+				l = 4
+			}
+			return map[string]interface{}{"relayout": "7 token sequences (prefix and infix, with string literals containing spaces, parentheses and ';', and two that do not compile); every gap (quick: every gap of the first three, every other gap of the rest) filled with 1-2 arbitrary Unicode spaces of the alphabet, a comment with 2 arbitrary characters, a ;;;; directive (must be inert), or nothing where a delimiter allows it; leading and trailing spaces",
+				"formatter": "every text of ≤" + itoa(l) + " characters and 1-2 arbitrary characters inside 11 contexts (inside and around string literals, comments, lists, directives), against a 50-line reference lexer; 13 whole expressions; formatter applied twice",
+				"alphabet":  "all of Latin-1 (solver variable) + U+1680, U+2028, U+3000, '中', '٣', U+FFFD, U+10FFFF, NUL"}
+		},
+		Rule:        "layout units: one per (token sequence, gap, filler kind); formatter units: one per (length, context); a state is one symbolic path (character classes are found by the solver)",
+		Assumptions: []string{"comments are compared modulo trailing blanks (the formatter trims the end of the text)", "removing the space in front of a string literal is not a re-layout of the same tokens (a quote starts a literal only at the start of a token)"},
+		WallBudget:  shapeBudget,
+	})
+}
